@@ -2,7 +2,7 @@
 """Checker self-test: apply each selftest mutant to a scratch copy of /repo, prove it still compiles
 (cargo check, stable toolchain), run the property's rules on the copy, record fired / missed.
 usage: bin/mutant_audit.py [PROP ...]  -> selftest/results.json"""
-import json, os, shutil, subprocess, sys, tempfile
+import fcntl, json, os, shutil, subprocess, sys, tempfile
 V = os.path.dirname(os.path.dirname(os.path.abspath(__file__)))
 idx = json.load(open(os.path.join(V, 'selftest/patches/index.json')))
 want = set(sys.argv[1:])
@@ -20,7 +20,7 @@ for m in idx:
     r = {'property': m['property'], 'applied': p.returncode == 0}
     if p.returncode == 0:
         feat = ['--features', 'sdp,blas-src,lapack-src'] if m['property'] in ('C18', 'C13') else []
-        env = dict(os.environ, CARGO_TARGET_DIR='/tmp/mutant-target', CARGO_NET_OFFLINE='true', RUSTFLAGS='-Awarnings')
+        env = dict(os.environ, CARGO_TARGET_DIR=os.environ.get('AUDIT_TARGET', '/tmp/mutant-target'), CARGO_NET_OFFLINE='true', RUSTFLAGS='-Awarnings')
         c = subprocess.run(['cargo', 'check', '--offline', '--lib'] + feat, cwd=repo, env=env, stdout=subprocess.PIPE, stderr=subprocess.STDOUT, text=True)
         r['compiles'] = c.returncode == 0
         if c.returncode == 0:
@@ -37,6 +37,11 @@ for m in idx:
     for f in os.listdir(os.path.join(V, '.cache/facts')):
         if ('-' + name + '.') in f:
             os.remove(os.path.join(V, '.cache/facts', f))
-    json.dump(results, open(res_path, 'w'), indent=1, sort_keys=True)
+    with open(res_path + '.lock', 'w') as lk:
+        fcntl.flock(lk, fcntl.LOCK_EX)
+        cur = json.load(open(res_path)) if os.path.exists(res_path) else {}
+        cur[name] = r
+        json.dump(cur, open(res_path, 'w'), indent=1, sort_keys=True)
+        results = cur
 n = len(results); fired = sum(1 for r in results.values() if r.get('fired'))
 print('mutants: %d, compiled: %d, fired: %d' % (n, sum(1 for r in results.values() if r.get('compiles')), fired))
